@@ -32,11 +32,11 @@ class Cx:
   def line(self):
     return getattr(self.node, 'lineno', '?')
 
-  def new(self, term, dims, kind='f', owner=FRESH, base=None, vf=None):
+  def new(self, term, dims, kind='f', owner=FRESH, base=None, vf=None, tt=None):
     if term is None:
       term = fresh('t', T)
     dims = [z3.IntVal(d) if isinstance(d, int) else d for d in dims]
-    return self.p.new_loc(ArrState(term, Shape(len(dims), dims), kind, owner, base, vf=vf))
+    return self.p.new_loc(ArrState(term, Shape(len(dims), dims), kind, owner, base, vf=vf, tt=tt))
 
   def vf_of(self, v):
     """value frame of an index array / index scalar (None when unknown)"""
@@ -154,7 +154,9 @@ class Lib:
     cx = Cx(self, ex, p, node, module, name)
     self.wellformed(cx, obj, name, args, kwargs)
     r = handler(cx, *args, **kwargs)
-    return self._norm(r, cx)
+    out = self._norm(r, cx)
+    self._type_results(name, out, list(args) + list(kwargs.values()))
+    return out
 
   def _norm(self, r, cx):
     if isinstance(r, list):
@@ -162,6 +164,48 @@ class Lib:
     if not feasible(cx.p.pc):
       return []
     return [(cx.p, r)]
+
+  # ---- translation typing (C19) of results: specific rules, else the conservative default
+  SAME_TT = {'ndarray.copy', 'ndarray.ravel', 'ndarray.flatten', 'ndarray.reshape', 'ndarray.astype', 'ndarray.squeeze', 'numpy.array',
+             'numpy.asarray', 'numpy.asanyarray', 'numpy.atleast_2d', 'numpy.atleast_1d', 'numpy.tile', 'numpy.repeat', 'numpy.squeeze',
+             'sklearn.utils.check_array', 'sklearn.utils.validation.check_array'}
+  STACK_TT = {'numpy.vstack', 'numpy.hstack', 'numpy.column_stack', 'numpy.concatenate'}
+  INV_OF_POS = {'numpy.cov', 'sklearn.metrics.pairwise_distances', 'sklearn.metrics.euclidean_distances', 'nn.kneighbors'}
+
+  def _type_results(self, name, out, args):
+    from . import ttype as TT
+    for q, res in out:
+      ts = [TT.tt_of(q, a) for a in args]
+      first = ts[0] if ts else TT.INV
+      if name in self.SAME_TT:
+        TT.set_tt(q, res, first) if self._unset(q, res) else None
+      elif name in self.STACK_TT:
+        a0 = args[0]
+        items = a0.items if isinstance(a0, (VTuple, VList)) else [a0]
+        TT.set_tt(q, res, TT.same([TT.tt_of(q, x) for x in items])) if self._unset(q, res) else None
+      elif name in self.INV_OF_POS:
+        TT.set_tt(q, res, TT.BAD if TT.BAD in ts else TT.INV) if self._unset(q, res) else None
+      elif name == 'numpy.unique':
+        # distinct rows of translated points are the translated distinct rows, in the same (lexicographic) order
+        if isinstance(res, VTuple):
+          TT.set_tt(q, res.items[0], first)
+          for x in res.items[1:]:
+            TT.set_tt(q, x, TT.BAD if first == TT.BAD else TT.INV)
+        else:
+          TT.set_tt(q, res, first)
+      elif name in ('numpy.dot', 'numpy.matmul', 'ndarray.dot'):
+        TT.set_tt(q, res, TT.arith('dot', ts[0], ts[1]) if len(ts) >= 2 else TT.BAD)
+      elif name in ('numpy.mean', 'ndarray.mean'):
+        ax = [a for a in args[1:] if isinstance(a, VInt)]
+        t = first
+        if first == TT.POS:
+          t = TT.POS if (ax and ax[0].conc() == 0) else TT.BAD      # mean over the SAMPLE axis of points is a point
+        TT.set_tt(q, res, t)
+      else:
+        TT.default_result(q, res, args)
+
+  def _unset(self, q, res):
+    return not (isinstance(res, VArr) and q.store[res.loc].tt is not None)
 
   def wellformed(self, cx, obj, name, args, kwargs):
     """call well-formedness: arity and keywords must bind against the INSTALLED signature"""
@@ -189,14 +233,18 @@ class Lib:
       if h is None:
         raise Unsupported('ndarray method without contract: %s (line %s)' % (name, cx.line()))
       ex.externals_used.add('ndarray.' + name)
-      return self._norm(h(cx, recv, *args, **kwargs), cx)
+      out = self._norm(h(cx, recv, *args, **kwargs), cx)
+      self._type_results('ndarray.' + name, out, [recv] + list(args) + list(kwargs.values()))
+      return out
     from .libspec_shape import VExtObj
     if isinstance(recv, VExtObj):
       h = self.extobj_methods.get((recv.kind, name))
       if h is None:
         raise Unsupported('method %s of %s without contract (line %s)' % (name, recv.kind, cx.line()))
       ex.externals_used.add('%s.%s' % (recv.kind, name))
-      return self._norm(h(cx, recv, *args, **kwargs), cx)
+      out = self._norm(h(cx, recv, *args, **kwargs), cx)
+      self._type_results('%s.%s' % (recv.kind, name), out, [recv] + list(args) + list(kwargs.values()))
+      return out
     if isinstance(recv, VStr):
       if name in ('format', 'join'):
         return [(p, VOpaque('msg'))]
